@@ -4,6 +4,7 @@ import (
 	"fmt"
 
 	"github.com/tuneinsight/lattigo/v6/core/rlwe"
+	"github.com/tuneinsight/lattigo/v6/ring/ringqp"
 
 	"verifsim/catalog"
 	"verifsim/core"
@@ -137,6 +138,51 @@ func c09RLWE(ctx *core.RunCtx) *c09Scheme {
 			o.Resize(1, a.Level())
 			x.GadgetProductHoisted(a.Level(), x.BuffDecompQP, &cc.swk.GadgetCiphertext, o)
 			return nil
+		}},
+		{name: "ModDown", op1: []int{vNone}, ks: []int{0, 1, 2, 3}, needDeg1: true, callerSetsMeta: true, deg: degOne, call: func(e any, a *rlwe.Ciphertext, b any, k int, o *rlwe.Ciphertext) error {
+			// division by P of an element modulo QP that shares nothing with the output (k: with or without the P
+			// part; same or other representation than the output asks for). The element is an input.
+			if o == a {
+				return fmt.Errorf("the element is built from the first operand")
+			}
+			lq, lp := a.Level(), params.MaxLevelP()
+			if k&1 == 1 {
+				lp = -1
+			}
+			rqp := params.RingQP().AtLevel(lq, lp)
+			x := &rlwe.Element[ringqp.Poly]{Value: []ringqp.Poly{rqp.NewPoly(), rqp.NewPoly()}}
+			md := *a.MetaData
+			x.MetaData = &md
+			if k&2 == 2 {
+				x.IsNTT = !x.IsNTT
+			}
+			for i := range x.Value {
+				x.Value[i].Q.CopyLvl(lq, a.Value[i])
+				if lp >= 0 {
+					for j, row := range x.Value[i].P.Coeffs {
+						for t := range row {
+							row[t] = (a.Value[i].Coeffs[0][t] * 2654435761) % params.RingP().SubRings[j].Modulus
+						}
+					}
+				}
+			}
+			h := qpHash(x.Value[0])*7 ^ qpHash(x.Value[1])
+			nttBefore := x.IsNTT
+			o.Resize(1, lq)
+			ev(e).ModDown(lq, lp, x, o)
+			if qpHash(x.Value[0])*7^qpHash(x.Value[1]) != h || x.IsNTT != nttBefore {
+				c09ArgModified = fmt.Sprintf("the element modulo QP it divides (levelP=%d, element NTT=%v, output NTT=%v)", lp, nttBefore, o.IsNTT)
+			}
+			return nil
+		}},
+		{name: "InnerFunction", op1: []int{vNone}, ks: []int{1, 2, 3, 4}, needDeg1: true, deg: degOne, call: func(e any, a *rlwe.Ciphertext, b any, k int, o *rlwe.Ciphertext) error {
+			x := ev(e)
+			return x.InnerFunction(a, 1, k, func(p, q, r *rlwe.Ciphertext) error {
+				rq := params.RingQ().AtLevel(r.Level())
+				rq.Add(p.Value[0], q.Value[0], r.Value[0])
+				rq.Add(p.Value[1], q.Value[1], r.Value[1])
+				return nil
+			}, o)
 		}},
 		{name: "Trace", op1: []int{vNone}, ks: logNs, needDeg1: true, deg: degOne, call: func(e any, a *rlwe.Ciphertext, b any, k int, o *rlwe.Ciphertext) error {
 			return ev(e).Trace(a, k, o)
